@@ -174,6 +174,9 @@ func (c *Ctx) Violate(signature, what string, witness any) {
 			v.Known = true
 		}
 	}
+	if !v.Known {
+		setAborted()
+	}
 	// keep at most 40 witnesses per signature
 	n := 0
 	for _, o := range c.violations {
